@@ -490,7 +490,8 @@ fn ev(kv: Vec<(&str, Value)>) -> Value { Value::obj(kv) }
 /// Executes the operations of one case on a fresh program value and writes the trace
 /// (case / push / call / hook events / ret / state) to `out`.
 pub fn drive(case: &Value, out: &mut Out, mk: fn() -> Box<dyn Driven>) {
-   for l in drive_lines(case, mk, true) {
+   // `nohooks`: stress rounds run without the event sink (it would serialise the workers)
+   for l in drive_lines(case, mk, case["nohooks"] != Value::Bool(true)) {
       out.line(&l);
    }
 }
